@@ -1,0 +1,20 @@
+//go:build verif
+
+package keeper
+
+// Contracts for the verification framework in /verif (comment-only file; compiled
+// only with -tags verif, where it contributes nothing but these comments).
+
+//@ // ---- declared effects (checked per call instruction by the effect checker; anything not listed is effect-free) ----
+//@ effects Keeper.BurnCoinsForSpecifiedModuleAccount bank.burn
+//@ effects Keeper.PrepareCoinsToDistribute bank.send
+//@ effects Keeper.SendCoinsFromModuleAccount bank.send
+//@ effects Keeper.SendCoinsFromModuleToModule bank.send
+//@ effects Keeper.SendCoinsFromStates bank.burn bank.send
+//@ effects Keeper.SendCoinsToModuleAccount bank.send
+//@ effects Keeper.burnCoins bank.burn
+//@ effects Keeper.prepareCoinToDistributeForBaseAccount bank.send
+//@ effects Keeper.prepareCoinToDistributeForModuleAccount bank.send
+//@ effects Keeper.prepareCoinToDistributeForNotMainAccount bank.send
+//@ effects Keeper.sendCoinsToBaseAccount bank.send
+//@ effects Keeper.sendCoinsToModuleAccount bank.send
